@@ -16,6 +16,7 @@
 //
 //	go id | fo name | lo | co name | uo id name|~ | do id | gu id | fu name | lu | cu name id |
 //	uu id name|~ | du id | pu id | ga id | ft token | la | ca org user token a|i perms | ua id a|i | da id
+//	ga2 | ft2 | la2 | ca2 | ua2 | da2: the same six through authorization.NewAuthedAuthorizationService
 //
 // Answers of wrapped calls: `err <class> chg=<0|1>` (chg: did any byte of any kv bucket change),
 // reads `ok <resources with their attributes>`, mutations `ok <id> pre=<org>:<user>|-`.
@@ -50,7 +51,8 @@ type runner struct {
 	wb   *authorizer.BucketService
 	wo   *authorizer.OrgService
 	wu   *authorizer.UserService
-	wa   *authorizer.AuthorizationService
+	wa   influxdb.AuthorizationService // authorizer.NewAuthorizationService
+	wa2  influxdb.AuthorizationService // authorization.NewAuthedAuthorizationService (middleware_auth.go)
 }
 
 func newCase() h.CaseRunner {
@@ -66,6 +68,7 @@ func newCase() h.CaseRunner {
 	r.wo = authorizer.NewOrgService(t.Svc)
 	r.wu = authorizer.NewUserService(t.Svc)
 	r.wa = authorizer.NewAuthorizationService(r.auth)
+	r.wa2 = authorization.NewAuthedAuthorizationService(r.auth, t.Svc)
 	return r
 }
 
@@ -266,6 +269,11 @@ func (r *runner) call(ctx context.Context, t []string) string {
 			out[i] = v
 		}
 		return out, true
+	}
+	wa := r.wa
+	if n := len(t[0]); n == 3 && t[0][2] == '2' && strings.Contains("ga2 ft2 la2 ca2 ua2 da2", t[0]) {
+		wa = r.wa2
+		t = append([]string{t[0][:2]}, t[1:]...)
 	}
 	switch {
 	case t[0] == "gb" && len(t) == 2:
@@ -490,7 +498,7 @@ func (r *runner) call(ctx context.Context, t []string) string {
 		if !ok {
 			return bad
 		}
-		a, err := r.wa.FindAuthorizationByID(ctx, id[0])
+		a, err := wa.FindAuthorizationByID(ctx, id[0])
 		if err != nil {
 			return fail(err)
 		}
@@ -500,13 +508,13 @@ func (r *runner) call(ctx context.Context, t []string) string {
 		if !ok || tok == "" {
 			return bad
 		}
-		a, err := r.wa.FindAuthorizationByToken(ctx, tok)
+		a, err := wa.FindAuthorizationByToken(ctx, tok)
 		if err != nil {
 			return fail(err)
 		}
 		return "ok " + aut(a)
 	case t[0] == "la" && len(t) == 1:
-		as, _, err := r.wa.FindAuthorizations(ctx, influxdb.AuthorizationFilter{})
+		as, _, err := wa.FindAuthorizations(ctx, influxdb.AuthorizationFilter{})
 		if err != nil {
 			return fail(err)
 		}
@@ -524,7 +532,7 @@ func (r *runner) call(ctx context.Context, t []string) string {
 			return bad
 		}
 		a := &influxdb.Authorization{OrgID: id[0], UserID: id[1], Token: tok, Status: status(act), Permissions: ps}
-		if err := r.wa.CreateAuthorization(ctx, a); err != nil {
+		if err := wa.CreateAuthorization(ctx, a); err != nil {
 			return fail(err)
 		}
 		return "ok " + u(a.ID) + " pre=-"
@@ -543,13 +551,13 @@ func (r *runner) call(ctx context.Context, t []string) string {
 				return bad
 			}
 			st := status(act)
-			a, err := r.wa.UpdateAuthorization(ctx, id[0], &influxdb.AuthorizationUpdate{Status: &st})
+			a, err := wa.UpdateAuthorization(ctx, id[0], &influxdb.AuthorizationUpdate{Status: &st})
 			if err != nil {
 				return fail(err)
 			}
 			return "ok " + u(a.ID) + " pre=" + pre
 		}
-		if err := r.wa.DeleteAuthorization(ctx, id[0]); err != nil {
+		if err := wa.DeleteAuthorization(ctx, id[0]); err != nil {
 			return fail(err)
 		}
 		return "ok " + u(id[0]) + " pre=" + pre
@@ -774,6 +782,9 @@ func gen(r *h.Rand, tier string, emit func([]string)) {
 				call = "ua " + h.Pick(r, auths) + " " + h.Pick(r, []string{"a", "i"})
 			default:
 				call = "da " + h.Pick(r, auths)
+			}
+			if f := strings.Fields(call); r.Chance(0.35) && strings.Contains("ga ft la ca ua da", f[0]) && len(f[0]) == 2 {
+				call = f[0] + "2" + call[2:]
 			}
 			ops = append(ops, "w "+caller+" "+call)
 			if r.Chance(0.05) {
